@@ -975,3 +975,87 @@ _run_c13c = run
 def run(ctx, R):
     _run_c13c(ctx, R)
     r138(ctx, R)
+
+
+_TEXT_ONLY = ('split', 'strip', 'lstrip', 'rstrip', 'partition')
+_CONTAINERS = ('set', 'frozenset', 'list', 'tuple', 'sorted')
+
+
+def r139(ctx, R):
+    """Aggregates are known by the text the client gave when it associated
+    them (PUT .../aggregates stores the uuids of the body as sent) and are
+    matched by that text: the member_of parser hands on the uuids of the
+    query string as sent - cut out of the value, nothing else done to them
+    (a canonical re-spelling on one side only finds nothing, and a
+    forbidden aggregate so re-spelt forbids nothing)."""
+    prog = ctx.prog
+    f = prog.func('placement.util:normalize_member_of_qs_param')
+    rets = [r for r in own_nodes(f.node) if isinstance(r, ast.Return)
+            and r.value is not None]
+    names = {x.id for r in rets for x in ast.walk(r.value)
+             if isinstance(x, ast.Name)}
+    bad = []
+    n = 0
+    for a in own_nodes(f.node):
+        if not isinstance(a, (ast.Assign, ast.AugAssign)):
+            continue
+        tg = a.targets if isinstance(a, ast.Assign) else [a.target]
+        if not names & {x.id for t in tg for x in ast.walk(t)
+                        if isinstance(x, ast.Name)}:
+            continue
+        n += 1
+        for c in ast.walk(a.value):
+            if not isinstance(c, ast.Call):
+                continue
+            if isinstance(c.func, ast.Name) and c.func.id in _CONTAINERS:
+                continue
+            if isinstance(c.func, ast.Attribute) and \
+                    c.func.attr in _TEXT_ONLY:
+                continue
+            bad.append('line %d: %s' % (c.lineno, src(c)[:50]))
+    R.ob('R13.9', 'normalize_member_of_qs_param:uuids-as-sent',
+         bool(rets) and n > 0 and not bad,
+         'the aggregate uuids returned are pieces of the parameter value, '
+         'not transformed', bad[:3] or '%d assignments' % n, func=f)
+    # the writing side: what PUT aggregates hands to set_aggregates is the
+    # body (or its 'aggregates' member) itself
+    h = [x for x in prog.funcs_named(
+        'placement.handlers.aggregate:set_aggregates')]
+    m = 0
+    for impl in h:
+        for s in ctx.cg.calls_in(impl):
+            if not any(g.qbase.endswith('ResourceProvider.set_aggregates')
+                       or g.qbase == 'placement.handlers.aggregate:'
+                       '_set_aggregates' for g in s.callees):
+                continue
+            cal = [g for g in s.callees][0]
+            pn = [p for p in cal.params if 'aggregate' in p and
+                  'generation' not in p]
+            arg = C.arg_for_param(s.node, cal, pn[0]) if pn else None
+            if arg is None:
+                continue
+            m += 1
+            # every definition of the argument: the body or a member of it
+            defs = [arg]
+            if isinstance(arg, ast.Name):
+                defs = [x.value for x in own_nodes(impl.node)
+                        if isinstance(x, ast.Assign) and any(
+                            isinstance(t, ast.Name) and t.id == arg.id
+                            for t in x.targets)]
+            okw = bool(defs) and all(
+                not [c for c in ast.walk(C.inline_locals(impl, d))
+                     if isinstance(c, ast.Call) and not src(
+                         c.func).endswith('extract_json')]
+                for d in defs)
+            R.ob('R13.9', '%s:stores-as-sent' % impl.qname, okw,
+                 'the uuids stored are the ones of the body, untransformed',
+                 [src(d)[:40] for d in defs], func=impl, node=s.node)
+    R.count('R13.9', 1 + m, 2)
+
+
+_run_c13d = run
+
+
+def run(ctx, R):
+    _run_c13d(ctx, R)
+    r139(ctx, R)
